@@ -14,6 +14,7 @@
     * the assumption is needed: `C03_idn_needs_sane` (hostile tables of C16Idn.lean).
 -/
 import YarlProofs.C16Idn
+import YarlProofs.Lemmas.NetShape
 set_option linter.unusedSimpArgs false
 set_option linter.unusedVariables false
 namespace Yarl
@@ -47,9 +48,11 @@ theorem C03_idn_withHost_netArgs (e : Env) (h : Str) (hna : isAscii h = false)
     (hip : parseIP (partition 37 h).1 = none) (hne : ∀ r, idnaEncode e.o h = .ok r → r ≠ []) :
     (UOp.withHost h).NetArgs e := by
   intro eh he
-  have h2 := C16_idna_validated e.o h eh hna hip he
-  have hsa : IdnaAnswerSane eh := ⟨hne eh h2.1, h2.2⟩
-  exact ⟨eh, (bracket_of_no_colon (sane_no hsa (by decide))).symm, hostFix_sane e.o hsa⟩
+  obtain ⟨a, hi, ⟨_, rfl, hn⟩ | ⟨h58, hres, hz⟩⟩ := C16_idna_validated e.o h eh hna hip he
+  · have hsa : IdnaAnswerSane eh := ⟨hne eh hi, hn⟩
+    exact ⟨eh, (bracket_of_no_colon (sane_no hsa (by decide))).symm, hostFix_sane e.o hsa⟩
+  · -- (fix 3fbf5b4) the answer holds a ':' and spells an IP literal: its canonical form is a fixed point as well
+    exact NetShape.hostFix_of_ipRes_colon e.o (mem_iff.mp h58) hres hz
 
 /-- THE FIXED POINT for a URL whose authority is written around a sane A-label host (the general form;
     `CanonUrl` is the invariant every reachable URL has, `C03_reachable_canon`) -/
